@@ -63,7 +63,7 @@ func main() {
 		}
 		out := "# top-level functions of the pinned tree (+ fix commits); see internal/load/norm.go\n"
 		for _, fn := range load.TopLevelSourceFuncs(prog.Prog) {
-			out += fn.String() + "\t" + load.SigKey(fn.Signature) + "\t" + load.FullSigKey(fn.Signature) + "\n"
+			out += fn.String() + "\t" + load.SigKey(fn.Signature) + "\t" + load.FullSigKey(fn.Signature) + "\t" + load.ParamNames(fn) + "\n"
 		}
 		if err := os.WriteFile(*writeBaseline, []byte(out), 0o644); err != nil {
 			fmt.Printf("ERROR %v\n", err)
